@@ -1,3 +1,4 @@
+import IkeProofs.RefineSa.Select
 import IkeProofs.RefineSa.RandNum
 import IkeProofs.RefineReg.Registries
 import IkeProofs.RefineReg.Dh
@@ -89,5 +90,29 @@ theorem C11_gen_newIkeSa_unsupported (P : Prims) (r : Rand) (p : Proposal)
       · exact absurd h hpn
     rcases NewIKESAKey_unsupported_integ_not_ok P r p td te ti tp hd he hi hp hdn hen hpn hin ke nonce si sr with
       ⟨e, _⟩ | ⟨e, _⟩ <;> (rw [e] at hx; cases hx)
+
+/-! ### algorithm selection for a Child SA and the proposals built from SA objects, as translated -/
+
+open Ike.RefineSa in
+/-- the translated `NewChildSAKeyByProposal` IS the model's `selectChild`, for every proposal (and nil) -/
+theorem C11_gen_selectChild_is_model (po : Option Proposal) :
+    (Gen.security.NewChildSAKeyByProposal RefineReg.dhG RefineReg.encrG RefineReg.esnG RefineReg.integG po).map absChildSuite =
+      (Registry.selectChild po).map some :=
+  NewChildSAKeyByProposal_refines po
+
+open Ike.RefineSa in
+/-- the translated `IKESAKey.ToProposal` IS the model's `ikeToProposal` on objects with registered descriptors -/
+theorem C11_gen_ikeToProposal_is_model (k : Gen.security.IKESAKey) (hk : SaRegistered k) (hdh : DhRegistered k.DhInfo) :
+    Gen.security.IKESAKey.ToProposal k =
+      Registry.ikeToProposal ⟨absDhInfo k.DhInfo, GenAbsSa.absEncrInfo k.EncrInfo, GenAbsSa.absIntegInfo k.IntegInfo,
+        GenAbsSa.absPrfInfo k.PrfInfo⟩ :=
+  IKESAKey_ToProposal_refines k hk hdh
+
+open Ike.RefineSa in
+/-- the translated `ChildSAKey.ToProposal` IS the model's `childToProposal` -/
+theorem C11_gen_childToProposal_is_model (c : Gen.security.ChildSAKey) (s : Registry.ChildSuite)
+    (h : absChildSuite c = some s) (hl : EncrKNonneg c.EncrKInfo) :
+    Gen.security.ChildSAKey.ToProposal c = Registry.childToProposal s :=
+  ChildSAKey_ToProposal_refines c s h hl
 
 end Ike
